@@ -155,6 +155,10 @@ func VH_C17_batch() {
 	x0 := vPayload("x0")
 	anyStyle := vNondet[bool]("execAnyStyle")
 	errRes := !anyStyle && vNondet[bool]("item1ReturnsErrorResult")
+	// item 1 may also fail with a Go error, in either error-handling mode: whatever that does to
+	// item 1's slot, item 0's result (possibly a nil payload) is still what its exec returned
+	goErr := !errRes && vNondet[bool]("item1FailsWithGoError")
+	stop := vNondet[bool]("stopMode")
 	e1 := vNewErr()
 	c := vChoice("concurrency", 2) // sequential path and pooled path have their own slot-writing code
 	if c > 0 {
@@ -168,17 +172,21 @@ func VH_C17_batch() {
 		}
 		return 0
 	}
-	b := NewBatchNode().WithBatchConcurrency(c).WithPrepFunc(func(ctx context.Context, s *SharedStore) ([]Result, error) {
+	b := NewBatchNode().WithBatchConcurrency(c).WithBatchErrorHandling(!stop).WithPrepFunc(func(ctx context.Context, s *SharedStore) ([]Result, error) {
 		return []Result{NewResult(v0), NewResult(v1)}, nil
 	})
 	if anyStyle {
 		vCover("batch-any-style")
 		b.WithExecFuncAny(func(ctx context.Context, it any) (any, error) {
+			k := 0
 			vMon(func() {
-				k := which(it)
+				k = which(it)
 				vAssert(vSame(it, v0) || vSame(it, v1), "batch-exec-receives-the-item")
 				seen[k] = true
 			})
+			if k == 1 && goErr {
+				return nil, e1
+			}
 			return x0, nil
 		})
 	} else {
@@ -191,6 +199,9 @@ func VH_C17_batch() {
 			})
 			if k == 1 && errRes {
 				return NewErrorResult(e1), nil
+			}
+			if k == 1 && goErr {
+				return Result{}, e1
 			}
 			return NewResult(x0), nil
 		})
@@ -210,6 +221,12 @@ func VH_C17_batch() {
 			if errRes {
 				vCover("batch-error-result")
 				vAssert(results[1].IsError() && results[1].Error() == e1, "batch-error-result-reaches-post")
+			} else if goErr {
+				vCover("batch-item-fails-with-go-error")
+				if stop {
+					vCover("batch-stop-mode-after-a-value")
+				}
+				vAssert(results[1].IsError(), "batch-failed-item-is-an-error-result")
 			} else {
 				vAssert(!results[1].IsError() && vSame(results[1].Value(), x0), "batch-post-receives-the-exec-value")
 			}
